@@ -283,6 +283,25 @@ def instance_pool(ctx, cirq, rng):
     pool.append(('gen/noise-prepend', cirq.ConstantQubitNoiseModel(cirq.bit_flip(0.1), prepend=True)))
     pool.append(('gen/noise-append', cirq.ConstantQubitNoiseModel(cirq.amplitude_damp(0.2))))
     pool.append(('gen/noise-like', cirq.NoiseModel.from_noise_model_like(cirq.depolarize(0.05))))
+    # maps with several entries written in an order that is not the sorted one (the document is written sorted)
+    q3_ = cirq.LineQubit.range(3)
+    body3_ = cirq.FrozenCircuit(cirq.X(q3_[0]), cirq.CZ(q3_[1], q3_[2]), cirq.measure(q3_[0], key='a'), cirq.measure(q3_[1], key='b'))
+    pool.append(('gen/circuit-op-qubit-map-order', cirq.CircuitOperation(body3_, qubit_map={q3_[2]: q3_[0], q3_[0]: q3_[1], q3_[1]: q3_[2]})))
+    pool.append(('gen/circuit-op-key-map-order', cirq.CircuitOperation(body3_, measurement_key_map={'b': 'x', 'a': 'y'})))
+    pool.append(('gen/circuit-op-param-order', cirq.CircuitOperation(cirq.FrozenCircuit(cirq.X(q3_[0]) ** sympy.Symbol('u'), cirq.Z(q3_[0]) ** sympy.Symbol('t')), param_resolver={sympy.Symbol('u'): 0.25, sympy.Symbol('t'): 0.5})))
+    # qids of dimension 1 next to qubits
+    for shape_ in ((1,), (1, 2), (2, 1, 1), (1, 3)):
+        pool.append((f'gen/measure-shape-{"".join(map(str, shape_))}', cirq.MeasurementGate(len(shape_), key='k', qid_shape=shape_)))
+        pool.append((f'gen/measure-op-shape-{"".join(map(str, shape_))}', cirq.Circuit(cirq.MeasurementGate(len(shape_), key='k', qid_shape=shape_).on(*cirq.LineQid.for_qid_shape(shape_)))))
+    pool.append(('gen/identity-shape-1', cirq.IdentityGate(qid_shape=(1, 2))))
+    # values as the simulators produce them (records and qubit groups are tuples), gates at powers
+    pool.append(('gen/classical-data-store', cirq.ClassicalDataDictionaryStore(
+        _records={cirq.MeasurementKey('a'): [(0, 1), (1, 1)]}, _measured_qubits={cirq.MeasurementKey('a'): [tuple(q3_[:2]), tuple(q3_[:2])]}, _channel_records={cirq.MeasurementKey('c'): [2]},
+        _measurement_types={cirq.MeasurementKey('a'): cirq.MeasurementType.MEASUREMENT, cirq.MeasurementKey('c'): cirq.MeasurementType.CHANNEL})))
+    pool.append(('gen/classical-data-store(simulated)', cirq.Simulator(seed=1).simulate(cirq.Circuit(cirq.X(q3_[0]), cirq.measure(q3_[0], q3_[1], key='m')))._final_simulator_state.classical_data))
+    for e_ in (0.5, -1, 2, sympy.Symbol('t')):
+        pool.append((f'gen/pauli-interaction**{e_}', cirq.PauliInteractionGate(cirq.X, True, cirq.Y, False) ** e_))
+        pool.append((f'gen/clifford-free-power**{e_}', [cirq.XX ** e_, cirq.ISWAP ** e_, cirq.CCZ ** e_, cirq.CSWAP if e_ == 2 else cirq.CCX ** e_, cirq.PhasedISwapPowGate(phase_exponent=0.1) ** e_]))
     pool.append(('gen/symbolic', (cirq.X ** sympy.Symbol('a')).on(qs[0])))
     pool.append(('gen/expr', cirq.Circuit(cirq.rz(sympy.Symbol('a') * 2 + sympy.pi / 3).on(qs[0]))))
     pool.append(('gen/key-condition', cirq.X(qs[0]).with_classical_controls(cirq.KeyCondition(cirq.MeasurementKey('a'), 0))))
